@@ -94,6 +94,10 @@ COMBOS = [
      "on top of the private Progress enum: the root-tracing step of mark_one reports Exhausted (the driver takes marking "
      "to be complete although the root trace may just have queued objects)",
      [("src/context.rs", "            root.trace(self);\n            self.root_needs_trace = false;\n            Progress::Worked\n", "            root.trace(self);\n            self.root_needs_trace = false;\n            Progress::Exhausted\n")]),
+    ("C17-named-masks-live-collides-with-needs-trace", "R20-02-gc-ptr-header-tags", "C17", "flag-encoding",
+     "on top of the named tag masks and the retag helper: LIVE_MASK is given the value of NEEDS_TRACE_MASK (setting the "
+     "live flag also flips needs-trace)",
+     [("src/gc_ptr.rs", "    const LIVE_MASK: usize = 0x8;\n", "    const LIVE_MASK: usize = 0x4;\n")]),
     ("C07-white-bit-test-misses-white-weak", "R11-04-white-bit-test", "C07", "resurrect-table",
      "on top of the single-bit whiteness test: is_white compares both colour bits with zero, so a WhiteWeak object "
      "is not recognised as dead (resurrect leaves it dead, the barrier does not re-gray for it)",
